@@ -98,6 +98,96 @@ theorem repair_good {ix : Idx} {l : List RT} (h : goodList ix l = true) : repair
   simp [repairRoot, repList, repNodes_good ix l h]
 
 
+/-! files of a tree with their paths: (path, content, marked-with-suffix); an unreadable subtree shows none -/
+mutual
+def filesNode : RT → List (List Nat × List Nat × Bool)
+  | .file n _ _ _ c sfx => [([n], c, sfx)]
+  | .other _ _ _ => []
+  | .dir n _ _ st sub => if st = 0 then (filesList sub).map (fun e => (n :: e.1, e.2)) else []
+def filesList : List RT → List (List Nat × List Nat × Bool)
+  | [] => []
+  | x :: l => filesNode x ++ filesList l
+end
+
+def Indexed (ix : Idx) (e : List Nat × List Nat × Bool) : Prop := ∀ d ∈ e.2.1, (ix d).isSome = true
+
+mutual
+/-- nothing reported changed ⇒ every chunk of every (visible) file below is indexed -/
+theorem repNode_unchanged_indexed (ix : Idx) : ∀ (x : RT), (repNode ix x).2 = false →
+    ∀ e ∈ filesNode x, Indexed ix e
+  | .file n k t s c sfx, h, e, he => by
+    simp only [filesNode, List.mem_singleton] at he
+    subst he
+    simp only [repNode, bne_eq_false_iff_eq] at h
+    have hf := filter_eq_of_length h
+    intro d hd
+    simp only at hd
+    rw [← hf] at hd
+    exact (List.mem_filter.mp hd).2
+  | .other n k t, _, e, he => by simp [filesNode] at he
+  | .dir n k t st sub, h, e, he => by
+    simp only [filesNode] at he
+    split at he
+    · rename_i hst
+      obtain ⟨e', he', rfl⟩ := List.mem_map.mp he
+      simp only [repNode, hst, if_true] at h
+      have : (repNodes ix sub).2 = false := by
+        simp only [repList] at h
+        split at h
+        · simp at h
+        · rename_i hh; simpa using hh
+      exact repNodes_unchanged_indexed ix sub this e' he'
+    · simp at he
+theorem repNodes_unchanged_indexed (ix : Idx) : ∀ (l : List RT), (repNodes ix l).2 = false →
+    ∀ e ∈ filesList l, Indexed ix e
+  | [], _, e, he => by simp [filesList] at he
+  | x :: l, h, e, he => by
+    simp only [repNodes, Bool.or_eq_false_iff] at h
+    simp only [filesList, List.mem_append] at he
+    rcases he with he | he
+    · exact repNode_unchanged_indexed ix x h.1 e he
+    · exact repNodes_unchanged_indexed ix l h.2 e he
+end
+
+mutual
+/-- every file of the repaired tree that is not marked is a file of the original tree at the same path with the
+same content, all of it indexed -/
+theorem repNode_kept (ix : Idx) : ∀ (x : RT), ∀ e ∈ filesNode (repNode ix x).1, e.2.2 = false →
+    e ∈ filesNode x ∧ Indexed ix e
+  | .file n k t s c sfx, e, he, hs => by
+    simp only [repNode, filesNode, List.mem_singleton] at he
+    subst he
+    simp only [Bool.or_eq_false_iff, bne_eq_false_iff_eq] at hs
+    have hf := filter_eq_of_length hs.2
+    refine ⟨by simp [filesNode, hf, hs.1], ?_⟩
+    intro d hd
+    exact (List.mem_filter.mp hd).2
+  | .other n k t, e, he, _ => by simp [repNode, filesNode] at he
+  | .dir n k t st sub, e, he, hs => by
+    by_cases hst : st = 0
+    · simp only [repNode, hst, if_true, filesNode] at he ⊢
+      obtain ⟨e', he', rfl⟩ := List.mem_map.mp he
+      simp only [repList] at he'
+      split at he'
+      · obtain ⟨h1, h2⟩ := repNodes_kept ix sub e' he' hs
+        exact ⟨List.mem_map.mpr ⟨e', h1, rfl⟩, h2⟩
+      · rename_i hh
+        have hh' : (repNodes ix sub).2 = false := by simpa using hh
+        exact ⟨List.mem_map.mpr ⟨e', he', rfl⟩, repNodes_unchanged_indexed ix sub hh' e' he'⟩
+    · simp only [repNode, hst, if_false] at he
+      split at he <;> simp [filesNode, filesList] at he
+theorem repNodes_kept (ix : Idx) : ∀ (l : List RT), ∀ e ∈ filesList (repNodes ix l).1, e.2.2 = false →
+    e ∈ filesList l ∧ Indexed ix e
+  | [], e, he, _ => by simp [repNodes, filesList] at he
+  | x :: l, e, he, hs => by
+    simp only [repNodes, filesList, List.mem_append] at he ⊢
+    rcases he with he | he
+    · obtain ⟨h1, h2⟩ := repNode_kept ix x e he hs
+      exact ⟨Or.inl h1, h2⟩
+    · obtain ⟨h1, h2⟩ := repNodes_kept ix l e he hs
+      exact ⟨Or.inr h1, h2⟩
+end
+
 /-! ### rewrite -/
 
 mutual
